@@ -271,6 +271,9 @@ class Concat(Expr):
                 for frame, cols in zip(self._frames, columns_frame)
                 if len(cols) > 0
             ]
+            if not frames:
+                # Only the index is needed: there is nothing to project
+                return
             result = type(self)(
                 self.join,
                 self.ignore_order,
